@@ -1,9 +1,11 @@
 #!/bin/sh
-# Build the framework from files on disk only (offline): regenerate Gen/*.lean from /repo,
-# then build every Lean module (models, lemmas, property theorems) and the driver executable.
+# Build the framework from files on disk only (offline): regenerate Gen/*.lean from /repo for the claimed
+# properties, then build their Lean modules (models, lemmas, property theorems) and the driver executable.
+# Modules of checks that are still under construction (not in tools/accepted.json) are not built here.
 set -e
 cd "$(dirname "$0")"
 /venv/bin/python tools/translate_all.py
+MODS=$(/venv/bin/python tools/accepted_modules.py)
 cd lean
-lake build
+lake build xvdriver $MODS
 echo "setup ok"
